@@ -9,6 +9,9 @@ R-TJ-KEYS      TileJSON::from_object and as_object treat the same structured key
 R-NARROW       update_from_pyramid only narrows: bounds by intersection, minzoom by max, maxzoom by min.
 E-COMP-META    the four containers compress metadata with the compression they record and decompress with the recorded one
                (shared with C04); writers store reader.get_tilejson() and readers parse the decompressed bytes.
+R-MERGE        tar and directory readers hand back `TileJSON::default().merge(stored document)`: merge lets every key of the
+               merged-in document win — the pass-through values of `other` are visited completely and written with an
+               overwriting map insert (never entry().or_insert / a contains_key guard); only keys merge treats separately are skipped.
 R-TILESJSON    the served tiles.json starts from the reader's TileJSON, is narrowed by the coverage and gets tiles = prefix + {z}/{x}/{y}.
 """
 from . import comp, ir
@@ -31,7 +34,105 @@ META = {
 JSON_ESCAPE_LETTERS = {'"': 0x22, "\\": 0x5C, "/": 0x2F, "b": 0x08, "f": 0x0C, "n": 0x0A, "r": 0x0D, "t": 0x09}
 
 
+MAP_OVERWRITE = ("BTreeMap::insert", "HashMap::insert", "hash::map::HashMap::insert", "btree::map::BTreeMap::insert")
+MAP_KEEP = ("entry", "or_insert", "or_insert_with", "or_insert_with_key", "or_default", "try_insert")
+
+
+def merge_rule(ck, P):
+    mg = [b for b in P.bodies if b["q"].endswith("tilejson::TileJSON::merge")]
+    if not ck.anchor("R-MERGE", "TileJSON::merge", mg, 1):
+        return
+    b = mg[0]
+    users = [x["q"] for x in P.bodies if ("::tar::reader::" in x["q"] or "::directory::reader::" in x["q"]) and
+             ir.contains(x["body"], lambda y: y.get("k") == "mcall" and (y.get("q") or "").endswith("TileJSON::merge"))]
+    ck.anchor("R-MERGE", "container readers that build their TileJSON with merge", users, 2)
+    params = [x for p_ in b["params"] for x in ir.pat_binds(p_)]
+    other = [x for x in params if x["name"] != "self" and x["t"].endswith("TileJSON")]
+    if not ck.check(len(other) == 1, "R-MERGE", "merge|params", "merge(&mut self, other)", "unexpected parameters", ir.loc(b)):
+        return
+    oh = other[0]["hid"]
+
+    # functions through which the pass-through values travel: merge itself and the TileJsonValues methods it calls (transitively)
+    def values_callees(body, depth=0):
+        out = []
+        for y in ir.walk_nodes(body["body"]):
+            if y.get("k") in ("mcall", "call"):
+                q = ir.callee(y) or ""
+                if "tilejson::value::TileJsonValues::" in q and P.fn(q) is not None and depth < 3:
+                    out.append(P.fn(q))
+                    out += values_callees(P.fn(q), depth + 1)
+        return out
+    fns = [b] + values_callees(b)
+    # (1) the visit of other's pass-through values: a `for` whose iterator is rooted in other.values / the values parameter
+    visits = []
+    for f in fns:
+        fparams = [x for p_ in f["params"] for x in ir.pat_binds(p_)]
+        roots = {oh} if f is b else {x["hid"] for x in fparams if x["name"] != "self" and "TileJsonValues" in x["t"]}
+        for n in ir.walk_nodes(f["body"]):
+            if n.get("k") == "for" and any(y.get("k") == "path" and y.get("r") == "local" and y.get("hid") in roots for y in ir.walk_nodes(n["iter"])):
+                if f is b and not ir.contains(n["iter"], lambda y: y.get("k") == "field" and y.get("name") == "values"):
+                    continue
+                visits.append((f, n))
+    if not ck.check(len(visits) == 1, "R-MERGE", "merge|visit", "one loop visits the pass-through values of the merged-in document",
+                    "%d loops visit other.values" % len(visits), ir.loc(b)):
+        return
+    f, lp = visits[0]
+    adapt = [y["name"] for y in ir.walk_nodes(lp["iter"]) if y.get("k") == "mcall" and y["name"] not in ("iter", "iter_json_values", "into_iter", "clone", "keys", "values")]
+    esc = [y["k"] for y in ir.walk_nodes(lp["body"]) if y.get("k") in ("break", "ret")]
+    ck.check(not adapt and not esc, "R-MERGE", "merge|visit-complete", "the loop visits every value (no filter/skip/take adaptor, no early exit)",
+             "the visit of other.values is cut short (%s)" % (adapt + esc), ir.loc(lp))
+    # (2) skipped keys: only string literals that merge handles in a step of their own (it reads them with get_byte/get_str ... on other.values)
+    own = set()
+    for y in ir.walk_nodes(b["body"]):
+        if y.get("k") == "mcall" and y.get("name", "").startswith("get") and y.get("a") and ir.contains(y["recv"], lambda z: z.get("k") == "path" and z.get("hid") == oh):
+            v = ir.const_eval_str(y["a"][0])
+            if v:
+                own.add(v)
+    skipped = set()
+    odd = []
+    for y in ir.walk_nodes(lp["body"]):
+        if y.get("k") == "if":
+            lits = [ir.const_eval_str(z) for z in ir.walk_nodes(y["c"]) if z.get("k") == "lit" and z.get("lk") == "str"]
+            lits = [v for v in lits if v]
+            if not lits:
+                # a helper that takes the keys to skip as a parameter: the literals are at its call site (collected below)
+                fph = {x["hid"] for p_ in f["params"] for x in ir.pat_binds(p_) if x["name"] != "self" and "TileJsonValues" not in x["t"]}
+                by_param = f is not b and ir.contains(y["c"], lambda z: z.get("k") == "mcall" and z.get("name") == "contains" and ir.local_hid(z["recv"]) in fph)
+                if not by_param:
+                    odd.append(ir.loc(y))
+            skipped |= set(lits)
+    # literals handed to a helper as the skip list
+    for y in ir.walk_nodes(b["body"]):
+        if y.get("k") in ("mcall", "call") and P.fn(ir.callee(y) or "") is f and f is not b:
+            skipped |= {ir.const_eval_str(z) for z in ir.walk_nodes(y) if z.get("k") == "lit" and z.get("lk") == "str" and ir.const_eval_str(z)}
+    ck.check(skipped <= own and not odd, "R-MERGE", "merge|skipped-keys", "the only keys not copied are those merge combines itself (%s)" % sorted(skipped),
+             "keys %s are skipped although merge has no step of its own for them%s" % (sorted(skipped - own), " / value-dependent condition at %s" % odd if odd else ""), ir.loc(lp))
+    # (3) the store: reachable from the loop body, every write into the map is an overwriting insert
+    def stores(node, depth=0):
+        w, keep = [], []
+        for y in ir.walk_nodes(node):
+            if y.get("k") != "mcall":
+                continue
+            q = ir.callee(y) or y.get("q") or ""
+            if q.endswith(MAP_OVERWRITE):
+                w.append(y)
+            elif ("BTreeMap::" in q or "HashMap::" in q or "map::Entry" in q or "map::entry::Entry" in q) and y["name"] in MAP_KEEP:
+                keep.append(y)
+            elif "tilejson::value::TileJsonValues::" in q and P.fn(q) is not None and depth < 3:
+                w2, k2 = stores(P.fn(q)["body"], depth + 1)
+                w += w2
+                keep += k2
+        return w, keep
+    w, keep = stores(lp["body"])
+    guards = [y for y in ir.walk_nodes(lp["body"]) if y.get("k") == "mcall" and y.get("name") in ("contains_key", "is_none", "is_some", "get")
+              and ir.contains(y, lambda z: z.get("k") == "path" and z.get("name") == "self")]
+    ck.check(bool(w) and not keep and not guards, "R-MERGE", "merge|overwrite", "each visited value is written with an overwriting map insert (%d insert site(s)): the merged-in document wins" % len(w),
+             "values of the merged-in document are stored with %s: a key that is already present (TileJSON::default() carries \"tilejson\":\"3.0.0\") keeps its old value, so a stored document "
+             "does not come back unchanged from a tar/directory container" % (sorted({y["name"] for y in keep + guards}) or "no insert at all"), ir.loc(lp))
+
+
 def rules(ck, P):
+    merge_rule(ck, P)
     esc = [b for b in P.bodies if b["q"].endswith("json::stringify::escape_json_string")]
     par = [b for b in P.bodies if b["q"].endswith("byte_iterator::basics::parse_quoted_json_string")]
     if ck.anchor("R-ESC-INVERSE", "escape_json_string + parse_quoted_json_string", esc + par, 2):
